@@ -131,7 +131,7 @@ class Patcher:
                 if v is orig:
                     self.setattr(mod, k, new)
                     n += 1
-                elif isinstance(v, type) and getattr(v, "__module__", "").startswith("gemclus"):
+                elif isinstance(v, type) and str(getattr(v, "__module__", "")).startswith("gemclus"):
                     for ck, cv in list(vars(v).items()):
                         if cv is orig:
                             self.setattr(v, ck, new)
